@@ -32,6 +32,7 @@ import copy
 import datetime
 import itertools
 import pickle
+import random
 
 LEVEL = "exploration"
 RULE = ("case = (history -> index with 1..4 segments, deletions, multi-token fields, or a grouped parent/child corpus; query tree of "
@@ -67,7 +68,7 @@ ASSUMPTIONS = [
 ]
 SHARDS = {"quick": 4, "thorough": 16}
 BUDGET_S = {"quick": 70, "thorough": 600}
-FLOORS = {"c15.popA.trees": 400, "c15.popB.trees": 100, "c15.popA.checks": 5000, "c15.popB.checks": 1300, "c15.engine.runs": 4000,
+FLOORS = {"c15.dedup_sweep.trees": 250, "c15.popA.trees": 400, "c15.popB.trees": 100, "c15.popA.checks": 5000, "c15.popB.checks": 1300, "c15.engine.runs": 4000,
           "c15.model.decided": 350, "c15.nontrivial": 200, "c15.rw.normalize": 500, "c15.rw.simplify": 500, "c15.rw.with_boost": 500,
           "c15.rw.replace_absent": 500, "c15.rw.accept_id": 500, "c15.rw.apply_id": 500, "c15.rw.copy": 500, "c15.rw.deepcopy": 500,
           "c15.rw.qcopy": 500, "c15.rw.pickle2": 500, "c15.rw.pickleH": 500, "c15.rw.and_op": 120, "c15.rw.or_op": 200, "c15.rw.sub_op": 120,
@@ -393,7 +394,16 @@ class Gen(object):
                     out.append(c.with_boost(rng.choice(BOOSTS)))
             return out
         lo = 0 if self.mode == "B" else 1
-        if self.spans and rng.random() < 0.07:
+        if rng.random() < 0.06:
+            # binary operator over two same-class compounds that share a clause: the operands must stay two operands
+            # (no merging / de-duplication across them)
+            K = rng.choice([query.Or, query.Or, query.DisjunctionMax] if self.mode == "A2" else [query.And, query.And, query.Or, query.DisjunctionMax])
+            shared = self.leaf()
+            a = K([shared, self.leaf()] + ([sub()] if rng.random() < 0.3 else []))
+            b = K([self.leaf(), copy.deepcopy(shared)])
+            B = rng.choice([query.AndMaybe, query.AndMaybe, query.AndNot, query.Require, query.Otherwise])
+            return B(a, b) if rng.random() < 0.7 else B(b, a)
+        if self.spans and rng.random() < 0.11:
             # de-duplication probe: clauses that differ in one attribute only must both survive normalize()
             x = self.span_leafish() if rng.random() < 0.7 else query.Phrase("t", [rng.choice(["alfa", "bravo", "al"]) for _ in range(2)], slop=1)
             ch = [x, near_duplicate(rng, x, self.mode)] + ([sub()] if rng.random() < 0.3 else [])
@@ -1126,6 +1136,74 @@ def check_extra_analysis():
     _checked = True
 
 
+def dedup_pairs(rng):
+    """Systematic near-duplicate pairs: two clauses that differ in exactly one meaning-bearing attribute, or that are
+    class siblings with identical attributes. Both must survive every rewrite of a compound holding them."""
+    from whoosh import query
+    from whoosh.query import spans
+    from vf import model
+    a, b, c = [query.Term("t", w) for w in rng.sample(model.VOCAB[:5], 3)]
+    ta, tb = a.text, b.text
+    pairs = []
+
+    def add(x, y):
+        pairs.append((x, y))
+    for sl, od in ((1, True), (2, True), (2, False)):
+        x = query.Sequence([a, b], slop=sl, ordered=od)
+        add(x, query.Sequence([a, b], slop=sl + 2, ordered=od))
+        add(x, query.Sequence([a, b], slop=sl, ordered=not od))
+        add(x, query.Ordered([a, b], slop=sl, ordered=od))
+        add(x, query.Sequence([b, a], slop=sl, ordered=od))
+    add(query.Ordered([a, b]), query.Ordered([a, b], slop=3))
+    add(query.Phrase("t", [ta, tb], slop=1), query.Phrase("t", [ta, tb], slop=3))
+    add(query.Phrase("t", [ta, tb], slop=2), query.Phrase("t", [tb, ta], slop=2))
+    add(query.Phrase("t", [ta, tb], slop=2), query.Phrase("u", [ta, tb], slop=2))
+    for K in (spans.SpanNear, ):
+        add(K(a, b, slop=1, ordered=True), K(a, b, slop=3, ordered=True))
+        add(K(a, b, slop=2, ordered=True), K(a, b, slop=2, ordered=False))
+        add(K(a, b, slop=3, ordered=True, mindist=1), K(a, b, slop=3, ordered=True, mindist=2))
+    add(spans.SpanNear2([a, b], slop=1), spans.SpanNear2([a, b], slop=3))
+    add(spans.SpanNear2([a, b], slop=2, ordered=True), spans.SpanNear2([a, b], slop=2, ordered=False))
+    add(spans.SpanFirst(a, limit=0), spans.SpanFirst(a, limit=2))
+    near = spans.SpanNear(a, b, slop=3)
+    add(spans.SpanNot(near, c), spans.SpanContains(near, c))
+    add(spans.SpanBefore(a, b), spans.SpanCondition(a, b))
+    add(spans.SpanBefore(a, b), spans.SpanBefore(b, a))
+    add(spans.SpanOr([a, b]), spans.SpanOr([a, c]))
+    add(query.FuzzyTerm("t", "alfo", maxdist=1, prefixlength=0), query.FuzzyTerm("t", "alfo", maxdist=1, prefixlength=3))
+    add(query.FuzzyTerm("t", "brvo", maxdist=1, prefixlength=1), query.FuzzyTerm("t", "brvo", maxdist=2, prefixlength=1))
+    add(query.Term("t", "al"), query.Prefix("t", "al"))
+    add(query.Prefix("t", "alfa"), query.Wildcard("t", "alfa"))
+    add(query.Wildcard("t", "al*"), query.Prefix("t", "al*"))
+    add(query.Variations("t", "golf"), query.Term("t", "golf"))
+    add(query.Regex("t", "alfa"), query.Term("t", "alfa"))
+    add(query.Regex("t", "al.*"), query.Wildcard("t", "al.*"))
+    add(query.AndMaybe(a, b), query.AndNot(a, b))
+    add(query.AndMaybe(a, b), query.Require(a, b))
+    add(query.Require(a, b), query.Otherwise(a, b))
+    add(query.AndNot(a, b), query.AndNot(b, a))
+    add(query.ConstantScoreQuery(a, 1.0), query.ConstantScoreQuery(b, 1.0))
+    add(query.NumericRange("n", -2, 3, False, False), query.NumericRange("n", -2, 3, True, False))
+    add(query.NumericRange("n", -2, 3, False, False), query.NumericRange("n", -2, 3, False, True))
+    add(query.Not(a), query.Not(b))
+    add(query.Every("t"), query.Every("u"))
+    return pairs
+
+
+def dedup_sweep(case, rng, ctx):
+    from whoosh import query
+    from vf import model
+    for x, y in dedup_pairs(rng):
+        K = rng.choice([query.Or, query.Or, query.DisjunctionMax, query.And])
+        kids = [x, y] if rng.random() < 0.5 else [y, x]
+        if rng.random() < 0.3:
+            kids.insert(rng.randrange(3), query.Term("t", rng.choice(model.VOCAB[:6])))
+        q = K(kids)
+        ctx.count("c15.dedup_sweep.trees")
+        exp, pop = check_tree(case, rng, q, query.Term("t", rng.choice(model.VOCAB[:6])))
+        ctx.case(("dedup-sweep", type(x).__name__, type(y).__name__, K.__name__, pop), exp is not None and 0 < len(exp))
+
+
 def build_grouped(rng):
     """A corpus of parent/child groups (IndexWriter.group) for the Nested* queries: every group is a parent document
     (kind=p) followed by 0..4 children (kind=c); whole groups per commit, no deletions. Model documents carry the key of
@@ -1221,5 +1299,8 @@ def run(ctx):
                              sample={"query": repr(q), "population": pop, "layout": wb["history"],
                                      "matched": None if exp is None else len(exp), "live": len(built.live)}
                              if ctx.evaluations % 200 == 0 else None)
+                if idx % 4 == 1 and not nested:
+                    case.wb = wb
+                    dedup_sweep(case, random.Random("c15-dedup:%d:%d" % (ctx.seed, idx)), ctx)
         finally:
             built.close()
